@@ -106,7 +106,7 @@ func (w *writer) Publish(msgs []message.Message) (int64, error) {
 }
 
 func (w *writer) ReopenReader() (*reader, int64, int64) {
-	rdr := reopenReader(w.segment, w.params, w.version, w.index.reader())
+	rdr := reopenReader(w.segment, w.params, w.version, w.index.reader(), false)
 	nextOffset, nextTime := w.index.getNext()
 	return rdr, nextOffset, nextTime
 }
